@@ -3,8 +3,14 @@
 // modes: args-exh (every vector of <= `scale` words over a token alphabet), args-rand (character-level random words),
 //        proc (argv/env/exit code/stream cases), proc-bs (command lines with backslashes inside quoted segments),
 //        proc-late (children that write to their redirected stdout/stderr only after the parent is inside join() / the destructor)
+//        proc-multi (histories over several Process objects alive at once: open with redirects / close(stream subsets) / read / write /
+//        join / kill / destruction interleaved, so that descriptor numbers released by one object are re-issued to another)
+// All proc* modes run under the descriptor monitor of interpose/fd_track.cpp (every library call is made inside an fdtrack::Scope naming the
+// object and the API entry) and compare the set of open descriptors of this process before and after every case.
 #include "vh.hpp"
 #include "scratch.hpp"
+#include "../interpose/fd_track.hpp"
+#include <fcntl.h>
 #include <time.h>
 #include <nstd/Process.hpp>
 #include <nstd/List.hpp>
@@ -26,18 +32,24 @@ static const char* key(const char* fmt, ...) { va_list ap; va_start(ap, fmt); vs
 static void wrAll(int fd, const void* p, size_t n) { const char* c = (const char*)p; while (n) { ssize_t k = write(fd, c, n); if (k <= 0) _exit(97); c += k; n -= (size_t)k; } }
 static long long monoNs() { struct timespec ts; clock_gettime(CLOCK_MONOTONIC, &ts); return (long long)ts.tv_sec * 1000000000LL + ts.tv_nsec; }
 static int g_rf = -1;
+static bool g_tolerant = false, g_dead[3] = { false, false, false };
 // the child's own stdout/stderr: a failing write is recorded in the report ("W <fd> <errno>") before the child gives up with code 97
+// (tolerant children - flag 128 - only stop writing to that stream: the parent may have closed its end on purpose)
 static void wrStream(int fd, const void* p, size_t n) {
   const char* c = (const char*)p;
-  while (n) { ssize_t k = write(fd, c, n); if (k <= 0) { int e = errno; char line[48]; int l = snprintf(line, sizeof line, "W %d %d\n", fd, e); if (g_rf >= 0) wrAll(g_rf, line, (size_t)l); _exit(97); } c += k; n -= (size_t)k; }
+  if (g_tolerant && g_dead[fd]) return;
+  while (n) { ssize_t k = write(fd, c, n); if (k <= 0) { int e = errno; char line[48]; int l = snprintf(line, sizeof line, "W %d %d\n", fd, e); if (g_rf >= 0) wrAll(g_rf, line, (size_t)l); if (g_tolerant) { g_dead[fd] = true; return; } _exit(97); } c += k; n -= (size_t)k; }
 }
 static int childMain(int argc, char** argv) {
-  // argv: exe --child-echo <report file> <code,flags,outN,errN,seed[,delayMs]> [test arguments...]
+  // argv: exe --child-echo <report file> <code,flags,outN,errN,seed[,delayMs[,inN]]> [test arguments...]
   // flags: 1 read stdin to end-of-file, 2/4 echo stdin to stdout/stderr, 8 payload before the stdin phase, 16 "late": sleep delayMs right before the payload
-  //        is written (report line "T <CLOCK_MONOTONIC ns>" = the moment the sleep ended), 32 (with 16) SIGPIPE back to its default action
+  //        is written (report line "T <CLOCK_MONOTONIC ns>" = the moment the sleep ended), 32 (with 16) SIGPIPE back to its default action,
+  //        64 read exactly inN bytes from stdin (never waits for end-of-file: sibling children may hold copies of the write end), 128 tolerant:
+  //        SIGPIPE ignored, a failing write to stdout/stderr only ends the output to that stream
   if (argc < 4) _exit(96);
-  int code = 0, flags = 0; long outN = 0, errN = 0, delayMs = 0; unsigned long seed = 0;
-  if (sscanf(argv[3], "%d,%d,%ld,%ld,%lu,%ld", &code, &flags, &outN, &errN, &seed, &delayMs) < 5) _exit(95);
+  int code = 0, flags = 0; long outN = 0, errN = 0, delayMs = 0, inN = 0; unsigned long seed = 0;
+  if (sscanf(argv[3], "%d,%d,%ld,%ld,%lu,%ld,%ld", &code, &flags, &outN, &errN, &seed, &delayMs, &inN) < 5) _exit(95);
+  if (flags & 128) { g_tolerant = true; signal(SIGPIPE, SIG_IGN); }
   int rf = open(argv[2], O_WRONLY | O_CREAT | O_TRUNC, 0600); if (rf < 0) _exit(94);
   g_rf = rf;
   char line[64]; int k = snprintf(line, sizeof line, "A %d\n", argc); wrAll(rf, line, (size_t)k);
@@ -63,6 +75,10 @@ static int childMain(int argc, char** argv) {
     } else if (flags & 1) {
       unsigned long total = 0; u64 h = 1469598103934665603ULL;
       for (;;) { ssize_t n = read(0, buf, sizeof buf); if (n < 0) _exit(93); if (!n) break; total += (unsigned long)n; h = fnv(buf, (size_t)n, h); if (flags & 2) wrStream(1, buf, (size_t)n); if (flags & 4) wrStream(2, buf, (size_t)n); }
+      k = snprintf(line, sizeof line, "I %lu %llu\n", total, (unsigned long long)h); wrAll(rf, line, (size_t)k);
+    } else if (flags & 64) {
+      unsigned long total = 0; u64 h = 1469598103934665603ULL;
+      while (total < (unsigned long)inN) { size_t want = (unsigned long)inN - total < sizeof buf ? (size_t)((unsigned long)inN - total) : sizeof buf; ssize_t n = read(0, buf, want); if (n < 0) _exit(93); if (!n) break; total += (unsigned long)n; h = fnv(buf, (size_t)n, h); }
       k = snprintf(line, sizeof line, "I %lu %llu\n", total, (unsigned long long)h); wrAll(rf, line, (size_t)k);
     }
   }
@@ -207,14 +223,83 @@ static void argsRandom() {
 }
 
 // =================================================================================================== child processes
+// ---- descriptor monitor glue (interpose/fd_track.cpp)
+static unsigned long g_serial = 0;   // owner numbers of the Process objects of this run
+static const char* const API_FORM[] = { "Process.start(commandLine)", "Process.start(executable,argc,argv)", "Process.open(commandLine)", "Process.open(executable,argc,argv)", "Process.open(executable,List)" };
+static const char* const API_READ1 = "Process.read(buffer,length)";
+static const char* const API_READ3 = "Process.read(buffer,length,streams)";
+static const char* const API_WRITE = "Process.write";
+static const char* const API_CLOSE = "Process.close(streams)";
+static const char* const API_JOINX = "Process.join(exitCode)";
+static const char* const API_JOIN = "Process.join()";
+static const char* const API_KILL = "Process.kill";
+static const char* const API_DTOR = "Process.~Process";
+#define LIB(id, api) fdtrack::Scope lib_scope_((id), (api))
+static void onFdViolation(const fdtrack::Violation& v) {
+  bool self = v.releasedBy && v.releasedBy == v.owner && v.releasedIn[0];
+  char k[240]; snprintf(k, sizeof k, "%s/%s%s%s", v.api, fdtrack::kindName(v.kind), self ? "/released-earlier-in=" : "", self ? v.releasedIn : "");
+  char held[200] = "";
+  if (v.kind == fdtrack::K_CLOSE_OTHER_OBJECT || v.kind == fdtrack::K_USE_OTHER_OBJECT) snprintf(held, sizeof held, "; that number is currently held by Process object #%lu (handed out during its %s)", v.other, v.otherApi);
+  else if (v.kind == fdtrack::K_CLOSE_HARNESS || v.kind == fdtrack::K_USE_HARNESS) snprintf(held, sizeof held, "; that number is currently held by the application (a descriptor the harness opened itself)");
+  else snprintf(held, sizeof held, "; the number is not open (EBADF)");
+  char rel[200] = "";
+  if (v.releasedBy) snprintf(rel, sizeof rel, "; it was last closed by Process object #%lu inside %s", v.releasedBy, v.releasedIn);
+  fail(k, "inside %s, Process object #%lu calls %s on descriptor %d%s%s", v.api, v.owner, v.call, v.fd, held, rel);
+}
+// the open descriptors of this process (numbers < 4096) as a bitmap; the directory stream used for the listing is left out
+struct FdSnap { unsigned char b[512]; int n; };
+static void snapFds(FdSnap& s) {
+  memset(&s, 0, sizeof s);
+  DIR* d = opendir("/proc/self/fd"); if (!d) harnessBug("cannot list /proc/self/fd");
+  int self = dirfd(d); struct dirent* e;
+  while ((e = readdir(d))) { if (e->d_name[0] < '0' || e->d_name[0] > '9') continue; int fd = atoi(e->d_name); if (fd == self || fd >= 4096) continue; s.b[fd >> 3] |= (unsigned char)(1 << (fd & 7)); ++s.n; }
+  closedir(d);
+}
+// quiescent point: every Process object of the case is gone - the process has to hold exactly the descriptors it held when the case began
+static void fdQuiescent(const FdSnap& base, const char* cls) {
+  FdSnap now; snapFds(now); cnt("fd_quiescent_checks"); statMax("fd_open_at_quiescence", now.n);
+  if (!memcmp(now.b, base.b, sizeof now.b)) return;
+  Text t; int extra = 0, missing = 0;
+  for (int fd = 0; fd < 4096; ++fd) {
+    bool a = base.b[fd >> 3] & (1 << (fd & 7)), b = now.b[fd >> 3] & (1 << (fd & 7)); if (a == b) continue;
+    if (b) { char link[64], tgt[128]; snprintf(link, sizeof link, "/proc/self/fd/%d", fd); ssize_t l = readlink(link, tgt, sizeof tgt - 1); if (l < 0) l = 0; tgt[l] = 0; const char* api = fdtrack::createdIn(fd); t.addf(" +%d(%s%s%s)", fd, tgt, api[0] ? ", handed out in " : "", api); ++extra; }
+    else { t.addf(" -%d", fd); ++missing; }
+  }
+  fail(key("Process.~Process/%s/%s", cls, extra ? "descriptors-left-open" : "descriptors-of-the-application-closed"), "after all Process objects of the case were destroyed the process holds %d descriptors, it held %d when the case began:%s (+ still open, - no longer open)", now.n, base.n, t.c());
+}
+// the object is destroyed: no descriptor handed out on its behalf may still be open
+static void checkGone(unsigned long id, const char* cls) {
+  int fds[8]; int n = fdtrack::ownedList(id, fds, 8); cnt("fd_objects_checked_after_destruction");
+  if (!n) return;
+  Text t; for (int i = 0; i < n && i < 8; ++i) t.addf(" %d(%s)", fds[i], fdtrack::createdIn(fds[i]));
+  fail(key("Process.~Process/%s/descriptor-left-open", cls), "Process object #%lu was destroyed, %d descriptor(s) handed out on its behalf were never closed:%s", id, n, t.c());
+}
+// right after start/open: an object that keeps both the read and the write end of one pipe can never see end-of-file on it (nor can its child)
+static void checkPipeEnds(unsigned long id, const char* api, const char* cls) {
+  int fds[16]; int n = fdtrack::ownedList(id, fds, 16); if (n > 16) n = 16; cnt("fd_pipe_end_checks");
+  struct stat st[16]; int acc[16];
+  for (int i = 0; i < n; ++i) { if (fstat(fds[i], &st[i]) != 0 || !S_ISFIFO(st[i].st_mode)) acc[i] = -1; else { int fl = fcntl(fds[i], F_GETFL); acc[i] = fl < 0 ? -1 : (fl & O_ACCMODE); } }
+  for (int i = 0; i < n; ++i) for (int j = 0; j < n; ++j)
+    if (acc[i] == O_RDONLY && acc[j] == O_WRONLY && st[i].st_dev == st[j].st_dev && st[i].st_ino == st[j].st_ino)
+      fail(key("%s/%s/both-ends-of-a-pipe-kept-open", api, cls), "after %s returned, Process object #%lu holds descriptor %d (read end) and descriptor %d (write end) of the same pipe: end-of-file can never arrive on it", api, id, fds[i], fds[j]);
+}
+static void fdStats() {
+  cnt("fd_library_closes_observed", fdtrack::stat(fdtrack::S_LIB_CLOSES)); cnt("fd_library_descriptors_registered", fdtrack::stat(fdtrack::S_LIB_CREATES));
+  cnt("fd_application_descriptors_registered", fdtrack::stat(fdtrack::S_HARNESS_CREATES));
+  cnt("fd_numbers_reissued_to_another_object", fdtrack::stat(fdtrack::S_REUSE_OTHER_OBJECT)); cnt("fd_numbers_reissued_while_releaser_alive", fdtrack::stat(fdtrack::S_REUSE_RELEASER_ALIVE));
+  cnt("fd_numbers_reissued_to_application", fdtrack::stat(fdtrack::S_REUSE_LIB_TO_HARNESS));
+  cnt("fd_library_selects_observed", fdtrack::stat(fdtrack::S_LIB_SELECTS)); cnt("fd_library_reads_observed", fdtrack::stat(fdtrack::S_LIB_READS)); cnt("fd_library_writes_observed", fdtrack::stat(fdtrack::S_LIB_WRITES));
+  cnt("fd_library_closes_of_unknown_origin", fdtrack::stat(fdtrack::S_LIB_CLOSES_UNKNOWN_ORIGIN));
+}
+
 struct Word { Text t; };
-struct Reader { Process* p; uint mask; bool oneArg; size_t chunk; Bytes out, err; bool error; int lastErrno; long reads; };
+struct Reader { Process* p; unsigned long owner; uint mask; bool oneArg; size_t chunk; Bytes out, err; bool error; int lastErrno; long reads; };
 static void* readerMain(void* a) {
   Reader& rd = *(Reader*)a; uint open = rd.mask; u8* buf = (u8*)malloc(rd.chunk);
   while (open) {
     ssize_t k; uint which;
-    if (rd.oneArg) { k = rd.p->read(buf, rd.chunk); which = Process::stdoutStream; }
-    else { which = open; k = rd.p->read(buf, rd.chunk, which); }
+    if (rd.oneArg) { LIB(rd.owner, API_READ1); k = rd.p->read(buf, rd.chunk); which = Process::stdoutStream; }
+    else { which = open; LIB(rd.owner, API_READ3); k = rd.p->read(buf, rd.chunk, which); }
     ++rd.reads;
     if (k < 0) { rd.error = true; rd.lastErrno = errno; break; }
     if (which != Process::stdoutStream && which != Process::stderrStream) { rd.error = true; rd.lastErrno = -1; break; }
@@ -306,7 +391,9 @@ static void processCases(bool backslashMode) {
     const char* F0 = FORM[form]; const char* bsTag = backslashMode ? ",backslash-inside-quotes" : "";
     char strs[40]; snprintf(strs, sizeof strs, "streams=%s%s%s%s", so ? "o" : "", se ? "e" : "", si ? "i" : "", streams ? "" : "none");
     // ---- spawn
-    Process* p = new Process; bool started = false;
+    FdSnap fdBase; snapFds(fdBase);
+    Process* p = new Process; bool started = false; unsigned long oid = ++g_serial; fdtrack::born(oid);
+    { LIB(oid, API_FORM[form]);
     if (cmdForm) {
       Text cmd; for (size_t i = 0; i < words.n; ++i) { if (i) cmd.add(" "); bool bs = false; for (size_t k = 0; k < words[i]->t.n; ++k) if (words[i]->t.d[k] == '\\') bs = true; renderWord(r, words[i]->t, cmd, bs); }
       hist.add("  command line: "); hist.add(cmd.c()); hist.add("\n");
@@ -328,10 +415,12 @@ static void processCases(bool backslashMode) {
       for (size_t i = 0; i < words.n; ++i) free(argv[i]);
       free(argv);
     }
+    }
     if (!started) fail(key("%s/not-started", FORM[form]), "returned failure: %s", strerror(errno));
     if (!p->isRunning()) fail(key("%s/isRunning", FORM[form]), "isRunning() is false right after a successful start");
+    checkPipeEnds(oid, FORM[form], strs);
     // ---- streams
-    Reader rd; rd.p = p; rd.mask = streams & (Process::stdoutStream | Process::stderrStream); rd.oneArg = rd.mask == Process::stdoutStream && r.chance(1, 2);
+    Reader rd; rd.p = p; rd.owner = oid; rd.mask = streams & (Process::stdoutStream | Process::stderrStream); rd.oneArg = rd.mask == Process::stdoutStream && r.chance(1, 2);
     rd.chunk = (size_t)(r.chance(1, 3) ? r.range(1, 300) : r.chance(1, 2) ? 4096 : r.range(60000, 70000)); rd.error = false; rd.lastErrno = 0; rd.reads = 0;
     pthread_t th; bool haveReader = rd.mask != 0;
     if (haveReader && pthread_create(&th, 0, readerMain, &rd) != 0) harnessBug("pthread_create");
@@ -339,16 +428,17 @@ static void processCases(bool backslashMode) {
     if (si) {
       inData.grow((size_t)inN + 1); for (long i = 0; i < inN; ++i) inData.d[i] = pat(seed, 3, (unsigned long)i); inData.n = (size_t)inN;
       long off = 0; size_t wchunk = (size_t)(r.chance(1, 2) ? r.range(1, 5000) : 400000);
-      while (off < inN) { size_t n = (size_t)(inN - off) < wchunk ? (size_t)(inN - off) : wchunk; u8* blk = (u8*)malloc(n); memcpy(blk, inData.d + off, n); ssize_t k = p->write(blk, n); free(blk); if (k <= 0) fail(key("%s/%s/write", F0, strs), "Process::write returned %ld after %ld of %ld bytes: %s", (long)k, off, inN, strerror(errno)); off += k; }
-      p->close(Process::stdinStream);
+      while (off < inN) { size_t n = (size_t)(inN - off) < wchunk ? (size_t)(inN - off) : wchunk; u8* blk = (u8*)malloc(n); memcpy(blk, inData.d + off, n); ssize_t k; { LIB(oid, API_WRITE); k = p->write(blk, n); } free(blk); if (k <= 0) fail(key("%s/%s/write", F0, strs), "Process::write returned %ld after %ld of %ld bytes: %s", (long)k, off, inN, strerror(errno)); off += k; }
+      { LIB(oid, API_CLOSE); p->close(Process::stdinStream); }
     }
     if (haveReader) pthread_join(th, 0);
     if (rd.error) fail(key("%s/%s/read-error", F0, strs), "Process::read failed (errno %d) before end-of-file", rd.lastErrno);
-    uint32 got = 0xdeadbeef; bool j = p->join(got);
+    uint32 got = 0xdeadbeef; bool j; { LIB(oid, API_JOINX); j = p->join(got); }
     if (!j) fail(key("%s/join-result", F0), "join returned false: %s", strerror(errno));
     if (got != (uint32)code) fail(key("%s/code%s/exit-code", F0, code >= 128 ? ">=128" : "<128"), "join reported exit code %u, the child exited with %d", got, code);
     if (p->isRunning()) fail(key("%s/isRunning-after-join", F0), "isRunning() still true after join");
-    delete p;
+    { LIB(oid, API_DTOR); delete p; }
+    fdtrack::retire(oid); checkGone(oid, strs);
     // ---- streams content
     Bytes wantOut, wantErr;
     for (int phase = 0; phase < 2; ++phase) {
@@ -386,6 +476,7 @@ static void processCases(bool backslashMode) {
     { char s[48]; snprintf(s, sizeof s, "%s,%s", FORM[form] + 8, nenv ? "explicit" : "inherited"); setItem("overload_x_env", s); }
     if (outN >= 65536 || errN >= 65536 || inN >= 65536) cnt("payloads_over_pipe_capacity");
     statMax("max_exit_code", code); { char s[8]; snprintf(s, sizeof s, "%d", code); setItem("exit_codes", s); }
+    fdQuiescent(fdBase, strs);
     if (idx % 97 == 0) sample("%.1000s", hist.c());
     endCase(mix(mix(22, (u64)form * 8 + streams), mix((u64)code, (u64)nargs * 7 + (u64)nenv)), nargs > 0 || streams != 0);
   }
@@ -423,24 +514,29 @@ static void lateCases() {
     hist.addf("%s %s: the child sleeps %ld ms, then writes stdout=%ld stderr=%ld bytes and exits with %d (SIGPIPE %s in the child); the parent calls %s right after open()\n",
               F0, strs, delay, outN, errN, code, sigDefault ? "default action" : "ignored", fin == 3 ? "read() to end-of-file, then join(exitCode)" : FIN[fin]);
     setctxf("%s/%s,late-output,%s", F0, strs, FIN[fin]);
-    Process* p = new Process; bool started;
+    FdSnap fdBase; snapFds(fdBase);
+    Process* p = new Process; bool started; unsigned long oid = ++g_serial; fdtrack::born(oid);
+    { LIB(oid, API_FORM[form + 2]);
     if (form == 0) { Text cmd; for (int i = 0; i < nw; ++i) { if (i) cmd.add(" "); cmd.add(words[i]); } started = p->open(String(cmd.c(), cmd.n), streams, env); }
     else if (form == 1) { char* argv[6]; for (int i = 0; i < nw; ++i) argv[i] = strdup(words[i]); started = p->open(String(g_exe, strlen(g_exe)), nw, argv, streams, env); for (int i = 0; i < nw; ++i) free(argv[i]); }
     else { List<String> l; for (int i = 0; i < nw; ++i) l.append(String(words[i], strlen(words[i]))); started = p->open(String(g_exe, strlen(g_exe)), l, streams, env); }
+    }
     if (!started) fail(key("%s/not-started", F0), "returned failure: %s", strerror(errno));
-    long long t0 = monoNs(); uint32 got = 0xdeadbeef; bool haveCode = false; Reader rd; rd.error = false;
+    checkPipeEnds(oid, F0, strs);
+    long long t0 = monoNs(); uint32 got = 0xdeadbeef; bool haveCode = false; Reader rd; rd.error = false; rd.owner = oid;
     switch (fin) {
-    case 0: { bool j = p->join(got); if (!j) fail(key("%s/%s,late-output,%s/join-result", F0, strs, FIN[fin]), "join returned false: %s", strerror(errno)); haveCode = true; break; }
-    case 1: { bool j = p->join(); if (!j) fail(key("%s/%s,late-output,%s/join-result", F0, strs, FIN[fin]), "join returned false: %s", strerror(errno)); break; }
+    case 0: { bool j; { LIB(oid, API_JOINX); j = p->join(got); } if (!j) fail(key("%s/%s,late-output,%s/join-result", F0, strs, FIN[fin]), "join returned false: %s", strerror(errno)); haveCode = true; break; }
+    case 1: { bool j; { LIB(oid, API_JOIN); j = p->join(); } if (!j) fail(key("%s/%s,late-output,%s/join-result", F0, strs, FIN[fin]), "join returned false: %s", strerror(errno)); break; }
     case 2: break;
     default: {
       rd.p = p; rd.mask = streams & (Process::stdoutStream | Process::stderrStream); rd.oneArg = rd.mask == Process::stdoutStream && r.chance(1, 2); rd.chunk = (size_t)(r.chance(1, 2) ? r.range(1, 300) : 8192); rd.lastErrno = 0; rd.reads = 0;
       readerMain(&rd);
       if (rd.error) fail(key("%s/%s,late-output,%s/read-error", F0, strs, FIN[fin]), "Process::read failed (errno %d) before end-of-file", rd.lastErrno);
-      bool j = p->join(got); if (!j) fail(key("%s/%s,late-output,%s/join-result", F0, strs, FIN[fin]), "join returned false: %s", strerror(errno)); haveCode = true; break; }
+      bool j; { LIB(oid, API_JOINX); j = p->join(got); } if (!j) fail(key("%s/%s,late-output,%s/join-result", F0, strs, FIN[fin]), "join returned false: %s", strerror(errno)); haveCode = true; break; }
     }
     if (fin != 2 && p->isRunning()) fail(key("%s/isRunning-after-join", F0), "isRunning() still true after join");
-    delete p;   // fin == 2: the destructor joins
+    { LIB(oid, API_DTOR); delete p; }   // fin == 2: the destructor joins
+    fdtrack::retire(oid); checkGone(oid, strs);
     // ---- the child's report (the child has been reaped in every variant, the file is final)
     Bytes rep; { int fd = open(report, O_RDONLY); if (fd < 0) fail(key("%s/child-did-not-run", F0), "the child wrote no report (exec failed?)"); u8 b[8192]; for (;;) { ssize_t k = read(fd, b, sizeof b); if (k <= 0) break; bappend(rep, b, (size_t)k); } close(fd); unlink(report); }
     { u8 z = 0; bappend(rep, &z, 1); }
@@ -478,8 +574,253 @@ static void lateCases() {
     setItem("late_finish", FIN[fin]); setItem("late_stream_sets", strs); setItem("late_overloads", F0); setItem("late_child_sigpipe", sigDefault ? "default" : "ignored");
     { char s[96]; snprintf(s, sizeof s, "%s,%s", FIN[fin], strs); setItem("late_finish_x_streams", s); }
     statMax("late_max_delay_ms", delay);
+    fdQuiescent(fdBase, strs);
     if (idx % 97 == 0) sample("%.600s", hist.c());
     endCase(mix(mix(23, (u64)form * 8 + streams), mix((u64)code * 4 + (u64)fin, (u64)(outN * 4099 + errN))), true);
+  }
+}
+
+// =================================================================================================== several Process objects alive at once
+// One case = a seeded history over 2..4 slots, all on this thread. A slot holds no object, an idle object (never started, joined or killed)
+// or a running one. Every child is tolerant (flag 128), reads exactly the bytes the parent writes (flag 64; it never waits for end-of-file on
+// its stdin, because children started later inherit copies of the write end) and writes at most 12000 bytes per stream (far below the pipe
+// capacity), so it terminates on its own whatever the parent reads or closes. Blocking calls are only made when the model guarantees progress:
+//   read    - the stream is open, not at end-of-file, and either every stdin byte has been written (the child will write and exit) or the child
+//             writes its payload before its stdin phase and bytes of that stream are still outstanding;
+//   join/destructor - the rest of the stdin bytes is written first (as is before close(stdin)).
+// Oracles: bytes returned by read() are the next bytes of exactly that child's pattern for exactly that stream (complete at end-of-file, never
+// mixed with another child's), the stream reported by the 3-argument read is open and was asked for, join(exitCode) reports the child's code,
+// the child's report shows the stdin digest and that it reached its exit; descriptor monitor on every library call; after destruction no
+// descriptor handed out for the object is open; at the end of the case the process holds exactly the descriptors it held at the start;
+// descriptors the harness opened itself meanwhile ("bystanders") are still the same kernel objects when it closes them.
+enum { MS_NONE, MS_IDLE, MS_RUN };
+struct MP {
+  Process* p; unsigned long id; int st, form, gen, nwords, code; uint redir, openSet, closedEarlier; long outN, errN, inN, inWritten, gotOut, gotErr; unsigned seed; bool payloadFirst, eofOut, eofErr; char report[300];
+  MP() : p(0), id(0), st(MS_NONE), form(0), gen(0), nwords(0), code(0), redir(0), openSet(0), closedEarlier(0), outN(0), errN(0), inN(0), inWritten(0), gotOut(0), gotErr(0), seed(0), payloadFirst(false), eofOut(false), eofErr(false) { report[0] = 0; }
+};
+struct Bystander { int fd; unsigned long dev, ino; const char* what; };
+static const uint SO = Process::stdoutStream, SE = Process::stderrStream, SI = Process::stdinStream;
+static const char* sstr(uint m, char* buf) { int n = 0; if (m & SO) buf[n++] = 'o'; if (m & SE) buf[n++] = 'e'; if (m & SI) buf[n++] = 'i'; if (!n) { memcpy(buf, "none", 4); n = 4; } buf[n] = 0; return buf; }
+static void histFds(MP& m) { int fds[8]; int n = fdtrack::ownedList(m.id, fds, 8); hist.add("   [descriptors held for it now:"); for (int i = 0; i < n && i < 8; ++i) hist.addf(" %d", fds[i]); hist.add(n ? "]\n" : " none]\n"); }
+static bool mStdinComplete(const MP& m) { return !(m.redir & SI) || m.inWritten == m.inN; }
+static bool mReady(const MP& m, uint s) {
+  if (!(m.openSet & s) || (s == SO ? m.eofOut : m.eofErr)) return false;
+  return mStdinComplete(m) || (m.payloadFirst && (s == SO ? m.gotOut < m.outN : m.gotErr < m.errN));
+}
+static long g_mOps = 0;
+static void mOp(const char* kind) { ++g_mOps; cnt("multi_ops"); setItem("multi_op_kinds", kind); }
+
+static void mOpen(MP& m, Rng& r, long idx, int slot) {
+  bool fresh = m.st == MS_NONE;
+  if (fresh) { m.p = new Process; m.id = ++g_serial; fdtrack::born(m.id); }
+  m.form = r.chance(1, 8) ? (int)r.below(2) : 2 + (int)r.below(3);
+  m.redir = m.form >= 2 ? (r.chance(1, 10) ? 0u : (uint)r.range(1, 7)) : 0u;
+  bool so = m.redir & SO, se = m.redir & SE, si = m.redir & SI;
+  m.outN = so ? (r.chance(1, 6) ? 0 : r.chance(1, 4) ? 1 : r.range(2, 12000)) : 0; m.errN = se ? (r.chance(1, 6) ? 0 : r.chance(1, 4) ? 1 : r.range(2, 12000)) : 0;
+  m.inN = si ? (r.chance(1, 6) ? 0 : r.chance(1, 4) ? 1 : r.range(2, 12000)) : 0;
+  m.payloadFirst = r.chance(1, 2); m.code = (int)r.below(256); m.seed = (unsigned)r.below(1000000);
+  int flags = 128 | (si ? 64 : 0) | (m.payloadFirst ? 8 : 0);
+  snprintf(m.report, sizeof m.report, "%s/m%ld_%d_%d", scratch::root, idx, slot, ++m.gen); unlink(m.report);
+  char ctl[140]; snprintf(ctl, sizeof ctl, "%d,%d,%ld,%ld,%u,0,%ld", m.code, flags, m.outN, m.errN, m.seed, m.inN);
+  const char* words[6]; int nw = 0; words[nw++] = g_exe; words[nw++] = "--child-echo"; words[nw++] = m.report; words[nw++] = ctl; if (r.chance(1, 2)) words[nw++] = "extra";
+  m.nwords = nw;
+  Map<String, String> env; bool explicitEnv = r.chance(1, 2); if (explicitEnv) env.insert(String("VT_MULTI"), String("1"));
+  char sb[8]; const char* F0 = API_FORM[m.form];
+  hist.addf("#%lu %s%s streams=%s: child exits with %d, writes stdout=%ld stderr=%ld %s it reads %ld bytes from stdin\n", m.id, fresh ? "new Process; " : "(object re-used) ", F0, sstr(m.redir, sb), m.code, m.outN, m.errN, m.payloadFirst ? "before" : "after", m.inN);
+  mOp(fresh ? "open-new-object" : "open-reused-object");
+  setctxf("%s/several-objects", F0);
+  bool started;
+  { LIB(m.id, F0);
+    if (m.form == 0 || m.form == 2) { Text cmd; for (int i = 0; i < nw; ++i) { if (i) cmd.add(" "); cmd.add(words[i]); } String cl(cmd.c(), cmd.n); started = m.form == 0 ? m.p->start(cl, env) != 0 : m.p->open(cl, m.redir, env); }
+    else if (m.form == 4) { List<String> l; for (int i = 0; i < nw; ++i) l.append(String(words[i], strlen(words[i]))); started = m.p->open(String(g_exe, strlen(g_exe)), l, m.redir, env); }
+    else { char* argv[6]; for (int i = 0; i < nw; ++i) argv[i] = strdup(words[i]); String exe(g_exe, strlen(g_exe)); started = m.form == 1 ? m.p->start(exe, nw, argv, env) != 0 : m.p->open(exe, nw, argv, m.redir, env); for (int i = 0; i < nw; ++i) free(argv[i]); }
+  }
+  if (!started) fail(key("%s/several-objects/not-started", F0), "returned failure: %s", strerror(errno));
+  if (!m.p->isRunning()) fail(key("%s/several-objects/isRunning", F0), "isRunning() is false right after a successful start");
+  checkPipeEnds(m.id, F0, "several-objects");
+  m.st = MS_RUN; m.openSet = m.redir; m.closedEarlier = 0; m.inWritten = 0; m.gotOut = m.gotErr = 0; m.eofOut = m.eofErr = false;
+  histFds(m);
+  cnt("multi_processes"); setItem("multi_overloads", F0); setItem("multi_stream_sets", sb);
+}
+
+static void mWrite(MP& m, long n) {
+  while (n > 0) {
+    u8* blk = (u8*)malloc((size_t)n); for (long i = 0; i < n; ++i) blk[i] = pat(m.seed, 3, (unsigned long)(m.inWritten + i));
+    hist.addf("#%lu write(%ld bytes) [%ld of %ld written before]\n", m.id, n, m.inWritten, m.inN); mOp("write");
+    setctx("Process.write/several-objects"); ssize_t k; { LIB(m.id, API_WRITE); k = m.p->write(blk, (size_t)n); } free(blk);
+    if (k <= 0 || k > n) fail("Process.write/several-objects/result", "Process::write(%ld bytes) returned %ld: %s", n, (long)k, strerror(errno));
+    m.inWritten += k; n -= k; cnt("multi_stdin_bytes_written", (long)k);
+  }
+}
+static void mWriteRest(MP& m) { if ((m.openSet & SI) && m.inWritten < m.inN) mWrite(m, m.inN - m.inWritten); }
+
+static void mClose(MP& m, uint mask) {
+  if (m.st == MS_RUN && (mask & SI)) mWriteRest(m);
+  char a[8], b[8]; hist.addf("#%lu close(%s) [%s; open before: %s]\n", m.id, sstr(mask, a), m.st == MS_RUN ? "running" : "not running", sstr(m.openSet, b));
+  mOp(m.st != MS_RUN ? "close-on-idle-object" : (m.openSet & mask) == 0 ? "close-nothing-open" : (m.openSet & ~mask) ? "close-subset" : "close-all-open");
+  setctx("Process.close(streams)/several-objects"); { LIB(m.id, API_CLOSE); m.p->close(mask); }
+  if (m.st == MS_RUN) { m.closedEarlier |= m.openSet & mask; if (m.openSet & mask) { cnt("multi_streams_closed_before_finish"); setItem("multi_close_masks", a); } m.openSet &= ~mask; histFds(m); }
+}
+
+// one read() call; mask is ignored by the 1-argument form
+static void mRead(MP& m, bool oneArg, uint mask, size_t chunk) {
+  char a[8], b[8]; sstr(mask, a); sstr(m.openSet, b);
+  const char* api = oneArg ? API_READ1 : API_READ3;
+  u8* buf = (u8*)malloc(chunk); uint which = mask; ssize_t k;
+  mOp(oneArg ? "read(1-arg)" : "read(3-arg)");
+  if (!oneArg && (mask & m.closedEarlier)) { cnt("multi_reads_with_earlier_closed_stream_in_mask"); }
+  if (!oneArg && (mask & (SO | SE) & ~m.redir)) cnt("multi_reads_with_never_redirected_stream_in_mask");
+  setctxf("%s/several-objects,mask=%s,open=%s", api, oneArg ? "-" : a, b);
+  { LIB(m.id, api); if (oneArg) { k = m.p->read(buf, chunk); which = SO; } else k = m.p->read(buf, chunk, which); }
+  int e = errno;
+  hist.addf("#%lu read(%lu%s%s) -> %ld%s\n", m.id, (unsigned long)chunk, oneArg ? "" : ", streams=", oneArg ? "" : a, (long)k, which == SO ? " stdout" : which == SE ? " stderr" : " ?");
+  if (k < 0) fail(key("%s/several-objects,mask=%s,open=%s/read-error", api, oneArg ? "-" : a, b), "Process::read failed (%s) although the streams %s of this object are open and its child still has output / end-of-file to deliver", strerror(e), b);
+  if ((which != SO && which != SE) || !(which & m.openSet) || (!oneArg && !(which & mask))) { char c[8]; fail(key("%s/several-objects,mask=%s,open=%s/stream-reported", api, oneArg ? "-" : a, b), "read reported stream set '%s' (asked for '%s', open '%s')", sstr(which, c), a, b); }
+  long& got = which == SO ? m.gotOut : m.gotErr; long total = which == SO ? m.outN : m.errN; bool& eof = which == SO ? m.eofOut : m.eofErr; const char* sn = which == SO ? "stdout" : "stderr";
+  if ((size_t)k > chunk) fail(key("%s/several-objects/length", api), "read returned %ld for a %lu-byte buffer", (long)k, (unsigned long)chunk);
+  if (k == 0) {
+    if (got != total) fail(key("%s/several-objects,mask=%s,open=%s/%s-bytes", api, oneArg ? "-" : a, b, sn), "end-of-file on the %s of object #%lu after %ld bytes, its child wrote %ld", sn, m.id, got, total);
+    if (!eof) { eof = true; cnt("multi_streams_read_to_eof"); }
+  } else {
+    if (got + k > total) fail(key("%s/several-objects,mask=%s,open=%s/%s-bytes", api, oneArg ? "-" : a, b, sn), "read delivered %ld bytes after %ld on the %s of object #%lu, its child writes only %ld in total (bytes of another object's pipe?)", (long)k, got, sn, m.id, total);
+    for (long i = 0; i < k; ++i) if (buf[i] != pat(m.seed, which == SO ? 1 : 2, (unsigned long)(got + i)))
+      fail(key("%s/several-objects,mask=%s,open=%s/%s-bytes", api, oneArg ? "-" : a, b, sn), "byte %ld of the %s of object #%lu differs from what its child wrote (bytes of another stream or another object's pipe?)", got + i, sn, m.id);
+    got += k; cnt("multi_stream_bytes_compared", (long)k);
+  }
+  free(buf);
+}
+static size_t mChunk(Rng& r) { return (size_t)(r.chance(1, 3) ? r.range(1, 300) : r.chance(1, 2) ? 4096 : 20000); }
+static uint mExtraMask(Rng& r) { uint x = 0; if (r.chance(1, 2)) x |= SO; if (r.chance(1, 2)) x |= SE; if (r.chance(1, 6)) x |= SI; return x; }
+// read every open output stream to end-of-file (requires mStdinComplete)
+static void mDrain(MP& m, Rng& r) {
+  for (int guard = 0;; ++guard) {
+    uint need = (mReady(m, SO) ? SO : 0) | (mReady(m, SE) ? SE : 0); if (!need) break;
+    if (guard > 400000) harnessBug("drain does not end");
+    if (need == SO && (m.openSet & SO) && r.chance(1, 3)) mRead(m, true, SO, mChunk(r)); else mRead(m, false, need | (r.chance(1, 3) ? mExtraMask(r) : 0), mChunk(r));
+  }
+}
+
+static void mCheckReport(MP& m, const char* api) {
+  Bytes rep; { int fd = open(m.report, O_RDONLY); if (fd < 0) fail(key("%s/several-objects/child-did-not-run", API_FORM[m.form]), "the child of object #%lu wrote no report (exec failed?)", m.id); u8 b[8192]; for (;;) { ssize_t k = read(fd, b, sizeof b); if (k <= 0) break; bappend(rep, b, (size_t)k); } close(fd); unlink(m.report); }
+  { u8 z = 0; bappend(rep, &z, 1); }
+  const char* q = (const char*)rep.d; const char* qe = q + rep.n - 1;
+  for (int sec = 0; sec < 2; ++sec) {
+    long c0 = -1; if (sscanf(q, sec ? "E %ld\n" : "A %ld\n", &c0) != 1) harnessBug("bad report (section %d)", sec); q = strchr(q, '\n') + 1;
+    if (!sec && c0 != m.nwords) fail(key("%s/several-objects/argc", API_FORM[m.form]), "child got %ld arguments, %d were given", c0, m.nwords);
+    for (long i = 0; i < c0; ++i) { unsigned long l = strtoul(q, (char**)&q, 10); ++q; if (q + l > qe) harnessBug("bad report (entry)"); q += l + 1; }
+  }
+  bool done = false, haveI = false; unsigned long il = 0; unsigned long long ih = 0;
+  while (q < qe) { if (q[0] == 'I' && sscanf(q, "I %lu %llu", &il, &ih) == 2) haveI = true; else if (q[0] == 'D' && q[1] == '\n') done = true; const char* nl = strchr(q, '\n'); if (!nl) break; q = nl + 1; }
+  if (m.redir & SI) {
+    u64 h = 1469598103934665603ULL; for (long i = 0; i < m.inN; ++i) { u8 c = pat(m.seed, 3, (unsigned long)i); h = fnv(&c, 1, h); }
+    if (!haveI || il != (unsigned long)m.inN || ih != h) fail(key("%s/several-objects/stdin-bytes", api), "the child of object #%lu read %lu bytes from its stdin (digest %llx), %ld were written to it (digest %llx)", m.id, il, ih, m.inN, (unsigned long long)h);
+    cnt("multi_stdin_digests_compared");
+  }
+  if (!done) fail(key("%s/several-objects/child-incomplete", api), "the child of object #%lu never reached its exit(%d)", m.id, m.code);
+}
+
+// how: 0 join(exitCode), 1 join(), 2 kill, 3 destructor
+static void mFinish(MP& m, int how) {
+  static const char* const API[] = { API_JOINX, API_JOIN, API_KILL, API_DTOR }; const char* api = API[how];
+  if (how != 2) mWriteRest(m);
+  char b[8], c[8]; hist.addf("#%lu %s [open before: %s, closed earlier by close(): %s]\n", m.id, how == 3 ? "delete (running)" : api, sstr(m.openSet, b), sstr(m.closedEarlier, c));
+  static const char* const KIND[] = { "join(exitCode)", "join()", "kill", "destructor-while-running" }; mOp(KIND[how]);
+  { char s[64]; snprintf(s, sizeof s, "%s,closed-earlier=%s", KIND[how], c); setItem("multi_finish_x_closed_earlier", s); }
+  setctxf("%s/several-objects,closed-earlier=%s", api, c);
+  uint32 got = 0xdeadbeef; bool ok = true;
+  switch (how) {
+  case 0: { LIB(m.id, api); ok = m.p->join(got); } break;
+  case 1: { LIB(m.id, api); ok = m.p->join(); } break;
+  case 2: { LIB(m.id, api); ok = m.p->kill(); } break;
+  default: { LIB(m.id, api); delete m.p; } m.p = 0; break;
+  }
+  if (!ok) fail(key("%s/several-objects/result", api), "returned false for a running process: %s", strerror(errno));
+  if (how == 0 && got != (uint32)m.code) fail(key("%s/several-objects/exit-code", api), "join reported exit code %u for object #%lu, its child exited with %d", got, m.id, m.code);
+  if (how < 3 && m.p->isRunning()) fail(key("%s/several-objects/isRunning-after", api), "isRunning() still true");
+  if (how == 2) unlink(m.report); else mCheckReport(m, api);
+  m.openSet = 0;
+  if (how == 3) { fdtrack::retire(m.id); char cls[48]; snprintf(cls, sizeof cls, "several-objects,running,closed-earlier=%s", c); checkGone(m.id, cls); m.st = MS_NONE; }
+  else { m.st = MS_IDLE; histFds(m); }
+}
+static void mDeleteIdle(MP& m) {
+  hist.addf("#%lu delete (not running)\n", m.id); mOp("destructor-idle"); setctx("Process.~Process/several-objects,not-running");
+  { LIB(m.id, API_DTOR); delete m.p; } m.p = 0; fdtrack::retire(m.id); checkGone(m.id, "several-objects,not-running"); m.st = MS_NONE;
+}
+
+static void mBystanderOpen(Vec<Bystander>& bys, Rng& r) {
+  int fds[2] = { -1, -1 }; const char* what;
+  if (r.chance(1, 2)) { fds[0] = open("/dev/null", O_RDONLY | O_CLOEXEC); what = "/dev/null"; } else { if (pipe2(fds, O_CLOEXEC) != 0) harnessBug("pipe2"); what = "pipe"; }
+  for (int i = 0; i < 2; ++i) if (fds[i] >= 0) { struct stat st; if (fstat(fds[i], &st) != 0) harnessBug("fstat"); Bystander b; b.fd = fds[i]; b.dev = (unsigned long)st.st_dev; b.ino = (unsigned long)st.st_ino; b.what = what; bys.push(b); hist.addf("(application opens %s: descriptor %d)\n", what, fds[i]); }
+  mOp("application-opens-descriptor");
+}
+static void mBystanderClose(Vec<Bystander>& bys, size_t i) {
+  Bystander b = bys[i]; bys[i] = bys[bys.n - 1]; --bys.n;
+  struct stat st; int rc = fstat(b.fd, &st); int e = errno;
+  hist.addf("(application closes its descriptor %d)\n", b.fd); mOp("application-closes-descriptor"); cnt("multi_bystander_descriptors_verified");
+  if (rc != 0 || (unsigned long)st.st_dev != b.dev || (unsigned long)st.st_ino != b.ino)
+    fail("Process/several-objects/application-descriptor-disturbed", "descriptor %d (%s) opened by the application while Process objects were in use %s when the application came back to it", b.fd, b.what, rc != 0 ? strerror(e) : "refers to a different kernel object");
+  if (close(b.fd) != 0) fail("Process/several-objects/application-descriptor-disturbed", "close(%d) of the application's own descriptor failed: %s", b.fd, strerror(errno));
+}
+
+static void multiCases() {
+  signal(SIGPIPE, SIG_IGN);
+  snprintf(g_exe, sizeof g_exe, "/proc/self/exe");
+  for (long idx = opts.start; idx < opts.start + opts.cases; ++idx) {
+    if (!mine(idx)) continue;
+    beginCase(idx);
+    Rng r(opts.seed, 2006, (u64)idx);
+    FdSnap fdBase; snapFds(fdBase);
+    long reuse0 = fdtrack::stat(fdtrack::S_REUSE_RELEASER_ALIVE);
+    int K = (int)r.range(2, 4), steps = (int)r.range(8, 24); MP mp[4]; Vec<Bystander> bys; u64 fp = 24; int maxAlive = 0; long procs0 = 0;
+    hist.addf("%d slots, %d steps\n", K, steps);
+    int forcedSlot = -1, forcedKind = 0;   // directed continuation: 1 = start a child in that slot, 2 = finish that slot
+    for (int step = 0; step < steps; ++step) {
+      if (forcedSlot < 0 && r.chance(1, 10)) { if (bys.n < 3 && (bys.n == 0 || r.chance(2, 3))) mBystanderOpen(bys, r); else if (bys.n) mBystanderClose(bys, r.below(bys.n)); continue; }
+      int slot = forcedSlot >= 0 ? forcedSlot : (int)r.below((u64)K); int fk = forcedSlot >= 0 ? forcedKind : 0; forcedSlot = -1;
+      MP& m = mp[slot]; fp = mix(fp, (u64)slot * 16 + (u64)m.st);
+      if (m.st == MS_NONE) { mOpen(m, r, idx, slot); ++procs0; }
+      else if (m.st == MS_IDLE) {
+        int c = fk == 1 ? 0 : (int)r.below(6);
+        if (c < 3) { mOpen(m, r, idx, slot); ++procs0; } else if (c < 5) mDeleteIdle(m); else mClose(m, (uint)r.range(1, 7));
+      } else if (fk == 2) mFinish(m, (int)r.below(4));
+      else {
+        bool canWrite = (m.openSet & SI) && m.inWritten < m.inN, r1 = mReady(m, SO), r3 = mReady(m, SO) || mReady(m, SE), canDrain = mStdinComplete(m) && r3;
+        int w[6] = { canWrite ? 3 : 0, 5, r1 ? 2 : 0, r3 ? 3 : 0, canDrain ? 2 : 0, 3 }; int tot = 0; for (int i = 0; i < 6; ++i) tot += w[i];
+        int pick = (int)r.below((u64)tot), op = 0; while (pick >= w[op]) { pick -= w[op]; ++op; }
+        fp = mix(fp, (u64)op);
+        switch (op) {
+        case 0: mWrite(m, r.range(1, m.inN - m.inWritten)); break;
+        case 1: {
+          uint before = m.openSet; uint mask = r.chance(2, 3) && m.openSet ? ((uint)r.range(1, 7) & m.openSet) : (uint)r.range(1, 7); if (!mask) mask = m.openSet;
+          mClose(m, mask);
+          if (before != m.openSet && r.chance(1, 2)) {   // a number was released while the object lives on: let another object pick it up, then finish this one
+            int other = -1; for (int t = 0; t < K; ++t) { int cand = (slot + 1 + t) % K; if (cand != slot && mp[cand].st != MS_RUN) { other = cand; break; } }
+            if (other >= 0) { forcedSlot = other; forcedKind = 1; if (steps - step < 3) steps += 2; }
+          }
+          break; }
+        case 2: mRead(m, true, SO, mChunk(r)); break;
+        case 3: { uint need = mReady(m, SO) && mReady(m, SE) ? (r.chance(1, 2) ? (SO | SE) : r.chance(1, 2) ? SO : SE) : mReady(m, SO) ? SO : SE; mRead(m, false, need | mExtraMask(r) | (r.chance(1, 2) ? (m.closedEarlier & (SO | SE)) : 0u), mChunk(r)); break; }
+        case 4: mDrain(m, r); break;
+        default: mFinish(m, (int)r.below(4)); break;
+        }
+      }
+      if (fk == 1) { for (int t = 0; t < K; ++t) if (t != slot && mp[t].st == MS_RUN && mp[t].closedEarlier && r.chance(1, 2)) { forcedSlot = t; forcedKind = 2; break; } }
+      int alive = 0; for (int t = 0; t < K; ++t) if (mp[t].st == MS_RUN) ++alive; if (alive > maxAlive) maxAlive = alive;
+    }
+    // ---- wind down: objects in seeded order (running ones: sometimes read everything first), bystanders last
+    hist.add("-- end of the history: finish and destroy every object\n");
+    int order[4]; for (int i = 0; i < K; ++i) order[i] = i; for (int i = K - 1; i > 0; --i) { int j = (int)r.below((u64)i + 1); int t = order[i]; order[i] = order[j]; order[j] = t; }
+    for (int i = 0; i < K; ++i) {
+      MP& m = mp[order[i]];
+      if (m.st == MS_RUN) { if (r.chance(1, 2)) { mWriteRest(m); if (mStdinComplete(m)) mDrain(m, r); } mFinish(m, (int)r.below(4)); }
+      if (m.st == MS_IDLE) mDeleteIdle(m);
+    }
+    while (bys.n) mBystanderClose(bys, bys.n - 1);
+    fdQuiescent(fdBase, "several-objects");
+    cnt("multi_cases"); statMax("multi_max_objects_running_at_once", maxAlive); if (maxAlive >= 2) cnt("multi_cases_with_objects_running_at_once");
+    if (fdtrack::stat(fdtrack::S_REUSE_RELEASER_ALIVE) > reuse0) cnt("multi_cases_with_number_reissued_while_releaser_alive");
+    if (idx % 37 == 0) sample("%.1800s", hist.c());
+    endCase(mix(fp, (u64)procs0), true);
   }
 }
 
@@ -493,12 +834,16 @@ static int worker(int argc, char** argv) {
   init(argc, argv, "h_process");
   if (opts.probe) { int rc = probe(opts.probe); finish(); return rc; }
   const char* m = opts.mode;
+  bool procMode = !strncmp(m, "proc", 4);
+  if (procMode) fdtrack::enable(onFdViolation);
   if (!strcmp(m, "args-exh")) argsExhaustive();
   else if (!strcmp(m, "args-rand")) argsRandom();
   else if (!strcmp(m, "proc")) processCases(false);
   else if (!strcmp(m, "proc-bs")) processCases(true);
   else if (!strcmp(m, "proc-late")) lateCases();
+  else if (!strcmp(m, "proc-multi")) multiCases();
   else harnessBug("unknown mode %s", m);
+  if (procMode) { fdStats(); fdtrack::disable(); }
   cnt("vectors", g_vectors); cnt("items_compared", g_items); cnt("vectors_outside_conventions_skipped", g_skipped);
   leakCheck("Process/leak");
   finish();
